@@ -196,6 +196,9 @@ struct C04 : Scenario {
             // (d) rate: emittance decays with 2/(f_s t_d) per period; fitted over the first three damping times
             if (cfg.interp >= 3) for (const Hist* h : {&ha, &hb}) {
                 double einf = (h->sz.back() * h->sz.back() + h->se.back() * h->se.back()) / 2;
+                // (a start whose emittance already is the equilibrium one - e.g. a uniform box of half-width ~1.7 - has no decay to fit:
+                //  thorough tier, box start, fitted "rate" 0.21 vs 0.11 on a difference of a few 1e-3)
+                if (std::fabs((h->sz[0] * h->sz[0] + h->se[0] * h->se[0]) / 2 - einf) < 0.1) continue;
                 double sx = 0, sy = 0, sxx = 0, sxy = 0; int m = 0;
                 for (size_t i = 0; i < n; i++) {
                     if (h->t[i] > 1.5 * Td) break;
